@@ -929,3 +929,41 @@ def g_cnot(rng, level=0, n_random=40):
         for b_ in range(5):
             if a != b_:
                 yield {'qubits': (a, b_)}
+
+
+def _descriptions(rng, n_random):
+    """symbol sequences as lists of (kind, code): operator symbols 0..3, sign symbols 4..7, the letter i (8), junk (9)"""
+    import itertools
+    for n in range(0, 4):
+        for seq in itertools.product(range(6), repeat=n):
+            yield list(seq)
+    for _ in range(n_random):
+        n = int(rng.integers(0, 9))
+        yield [int(x) for x in rng.integers(0, 10, size=n)]
+
+
+@gen(PA + 'pauli#codes')
+def g_parse_codes(rng, level=0, n_random=300):
+    for seq in _descriptions(rng, n_random):
+        # codes 8 / 9 stand for integers outside 0..7 (ignored prefix symbols)
+        yield {'obj': np.array([c if c < 8 else (11 if c == 8 else -3) for c in seq], dtype=np.int64), 'N': None}
+
+
+_LETTER = {0: 'I', 1: 'X', 2: 'Y', 3: 'Z', 4: '+', 5: '-', 6: 'i', 7: 'i', 8: 'i', 9: 'q'}
+
+
+@gen(PA + 'pauli#chars')
+def g_parse_chars(rng, level=0, n_random=300):
+    for seq in _descriptions(rng, n_random):
+        yield {'obj': [_LETTER[c] for c in seq], 'N': None}
+
+
+@gen(PA + 'pauli#str')
+def g_parse_str(rng, level=0, n_random=300):
+    for pre in ('', '+', '-', 'i', '-i', '+i'):
+        for N in range(0, 3):
+            import itertools
+            for body in itertools.product('IXYZ', repeat=N):
+                yield {'obj': pre + ''.join(body), 'N': None}
+    for seq in _descriptions(rng, n_random):
+        yield {'obj': ''.join(_LETTER[c] for c in seq), 'N': None}
